@@ -211,15 +211,21 @@ def run(ctx):
     ok = len(hcall) == 1 and hcall[0].args and dotted(hcall[0].args[0]) == oe.args.args[1].arg
     loop_ok = all(not any(isinstance(x, (ast.Break, ast.Return, ast.If, ast.Try)) for x in walk_shallow(l)) for l in walk_shallow(oe, include_self=False) if isinstance(l, ast.For))
     ctx.check("R-TRACEBACK-PER-EXC", "each handler is called once with the exc_info", oe, ok and loop_ok, "handlers are not each called exactly once with exc_info", construct=f"{TESTCASE}:TestCase.onException::handler-call")
+    # the membership test on the exception type (either polarity) splits the paths: the traceback is
+    # reported on every path of the "not a signal class" side and on none of the other
     ok = False
-    if len(tb) == 1:
-        tcall = [c for c in node_calls(g.nodes[tb[0]]) if dotted(c.func) == "self._report_traceback"][0]
-        p = tcall
-        while not isinstance(p, ast.stmt):
-            p = p._parent
-        guard = getattr(p, "_parent", None)
-        ok = (isinstance(guard, ast.If) and isinstance(guard.test, ast.Compare) and isinstance(guard.test.ops[0], ast.NotIn) and norm(guard.test.left).startswith(oe.args.args[1].arg + "[0]")
-              and dotted(tcall.args[0]) == oe.args.args[1].arg and dotted(kw_value(tcall, "tb_label")) == "tb_label")
+    tests = [n for n in g.nodes if n.id in lv and n.kind == "test" and isinstance(n.ast.test, ast.Compare) and isinstance(n.ast.test.ops[0], (ast.In, ast.NotIn))
+             and isinstance(n.ast.test.comparators[0], (ast.List, ast.Tuple, ast.Set)) and norm(n.ast.test.left).startswith(oe.args.args[1].arg + "[0]")]
+    if len(tests) == 1 and tb:
+        t = tests[0]
+        loud = "true" if isinstance(t.ast.test.ops[0], ast.NotIn) else "false"
+        loud_succ = [b for b, k in g.succ[t.id] if k == loud]
+        quiet_succ = [b for b, k in g.succ[t.id] if k != loud and k in ("true", "false")]
+        always = g.escape_path(loud_succ, set(tb), targets=[g.exit_return]) is None
+        never = not (set(g.reach(quiet_succ)) & set(tb)) and not any(q in tb for q in quiet_succ)
+        shapes = all(dotted(c.args[0]) == oe.args.args[1].arg and dotted(kw_value(c, "tb_label")) == "tb_label"
+                     for i in tb for c in node_calls(g.nodes[i]) if dotted(c.func) == "self._report_traceback")
+        ok = always and never and shapes and g.dominated_by(tb[0], {t.id})
     ctx.check("R-TRACEBACK-PER-EXC", "traceback reported unless the type is a signal class", oe, ok,
               "onException does not call _report_traceback(exc_info, tb_label=tb_label) exactly when the type is not in the quiet list", construct=f"{TESTCASE}:TestCase.onException::traceback")
     ef = own_method(ctx, TESTCASE, "TestCase", "expectFailure")
